@@ -17,6 +17,7 @@ from common import env  # noqa: E402
 from common import tokenizer as tk  # noqa: E402
 from common.ctlgen import gen_ctl  # noqa: E402
 from common import imgkit  # noqa: E402
+from common import lexcheck  # noqa: E402
 
 from PIL import Image  # noqa: E402
 from term_image.image import BlockImage  # noqa: E402
@@ -35,9 +36,12 @@ def half(c):
 
 
 def shows_grid(driver: str, out: str, w: int, h: int, kind: str, invisible_bg=None):
-    """interpret the real string on the Lean terminal model and read what every cell shows"""
-    toks = tk.tokenize(out)
-    r = fw.run_driver(driver, [f"term.run {w} {h} {kind} 0 0 0 0 {tk.wire(toks)}"])[0].split(" ")
+    """interpret the real string on the Lean terminal model and read what every cell shows; the bytes are read
+    by the Lean lexer (`TIV.Lex.lex`, proved inverse to the model's printing: LexProofs.lex_toksStr)"""
+    resp = fw.run_driver(driver, [lexcheck.runbytes_request(w, h, kind, 0, 0, 0, 0, out)])[0]
+    if resp == "err lex":
+        raise tk.TokenizeError("the Lean lexer rejects the output: not a sequence of complete, known control sequences")
+    r = resp.split(" ")
     nimg = int(r[10])
     writes = r[12 + nimg:]
     grid = {}
@@ -64,7 +68,7 @@ def shows_grid(driver: str, out: str, w: int, h: int, kind: str, invisible_bg=No
 
 class C02(Property):
     id = "C02"
-    lean_props = ["TIV.C02.Props"]
+    lean_props = ["TIV.C02.Props", "TIV.Common.LexProofs"]
     driver = "drv_c02"
     partial = ("Pillow's convert / resize(BOX) / alpha_composite (uniform→uniform and identity at equal size are "
                "checked by the oracle against Pillow itself); round(alpha*255) is evaluated by CPython in the harness")
